@@ -130,7 +130,11 @@ def gen_doc(rng, comments=True, final_newline_optional=True):
         text = text[:-1]
     return text, paras
 
-def mutate(rng, s, alphabet=DEB822_ALPHABET):
+# characters that only the generated / mutated texts use (not the exhaustive enumeration): byte-order
+# mark, further Unicode line/space separators, a 3- and a 4-byte character
+MUT_EXTRA = ["\ufeff", "\u2028", "\x0b", "\u0085", "\u20ac", "\U0001f600"]
+def mutate(rng, s, alphabet=None):
+    if alphabet is None: alphabet = DEB822_ALPHABET + MUT_EXTRA
     if not s: return rng.choice(alphabet)
     k = rng.choice(["del", "ins", "rep", "dup", "swapnl", "trunc"])
     i = rng.randrange(len(s))
@@ -151,6 +155,8 @@ def deb822_text_cases(tier, rng, prefix):
         seen.add(s); cases.append((f"{prefix}{len(cases)}", [hexs(s)]))
     for s in corpus_files("deb822"): add(s)
     for s in repo_deb822_corpus(): add(s)
+    for s in list(corpus_files("deb822"))[:40] + ["A: b\n", "", "\n"]:
+        for x in MUT_EXTRA: add(x + s); add(s + x)
     n = {"quick": 5, "search": 5, "thorough": 6}[tier]
     for s in exhaustive(DEB822_ALPHABET, n): add(s)
     ngen = {"quick": 6000, "search": 20000, "thorough": 150000}[tier]
